@@ -308,6 +308,30 @@ def main(argv=None):
                                        replay_cmd=f"./check {pid} --replay {os.path.relpath(fn, ROOT)}"), open(fn, "w"), indent=1)
                         violations.append((nm, fn, True))
 
+    # ---- bounded native stand-ins registered by the contracts (never counted as proved) ----------------
+    bounded = []
+    for name, u in contract.UNITS.items():
+        if not u.get("native_check") or pid not in u["props"] or (args.only and name not in args.only.split(",")):
+            continue
+        seeds = list(range(seed, seed + (1 if tier == "quick" else 6)))
+        for cfg in u["configs"]:
+            rep = native_replay(name, cfg, None, seeds=seeds)
+            nclauses, fails = 0, []
+            for run in rep.get("runs", []):
+                for nm, ok, detail in run["clauses"]:
+                    nclauses += 1
+                    if ok is False:
+                        fails.append((nm, detail, run.get("seed")))
+            bounded.append(dict(unit=name, cfg=cfg, seeds=seeds, clause_evaluations=nclauses, failures=len(fails),
+                                error=rep.get("error", "")[-300:]))
+            for nm, detail, sd in fails[:3]:
+                os.makedirs(replay_dir, exist_ok=True)
+                fn = os.path.join(replay_dir, hashlib.sha1(("bounded:" + nm + str(cfg)).encode()).hexdigest()[:12] + ".json")
+                json.dump(dict(property=pid, obligation=nm, unit=name, cfg=cfg, verdict="fails on the real code (bounded native stand-in)",
+                               seed=sd, model=None, native_confirms=True, observed=detail,
+                               replay_cmd=f"./check {pid} --replay {os.path.relpath(fn, ROOT)}"), open(fn, "w"), indent=1)
+                violations.append((nm, fn, True))
+
     # ---- evidence -------------------------------------------------------------------------------
     backends = {}
     for r in proved:
@@ -328,6 +352,7 @@ def main(argv=None):
             backends=backends,
             refuted=len(refuted), undecided=len(unknown), checker_errors=len(errors),
             bounded_native_runs_for_undecided_units=native_sampled,
+            bounded_native_stand_ins=bounded,
             known_findings=[dict(obligation=k["obligation"], what=k["what"]) for k, _ in known_hits],
             units=len({m["unit"] for m in metas}), unit_configs=len(metas), paths=sum(m["paths"] for m in metas),
             functions_under_contract=function_hashes(functions),
